@@ -185,13 +185,24 @@ def run(res, tier, seed):
                          E_("a", E_("b", T_("12")), T_("  "), E_("b", T_("5")), a=[xdm.A("x", "1")]),
                          T_(" "), E_("c", T_(" "), E_("b", T_("7")), T_(" "), E_("b", T_("0")), T_("\n ")),
                          E_("b", T_(" "), E_("c", T_("3")), a=[xdm.A("space", "preserve", p="xml", u=xdm.XML_NS)]))))
+    # xml:space NESTS (3.4: "... preserve, and no closer ancestor element has xml:space with a value of default"): every combination of
+    # none / preserve / default on three nested elements, white space at every level
+    SP = lambda v: [xdm.A("space", v, p="xml", u=xdm.XML_NS)] if v else []
+    nests = []
+    for p1 in (None, "preserve", "default"):
+        for p2 in (None, "preserve", "default"):
+            for p3 in (None, "preserve", "default"):
+                nests.append(E_("a", T_(" "), E_("b", T_("\n"), E_("c", T_(" "), E_("b"), a=SP(p3)), T_(" "), a=SP(p2)), a=SP(p1)))
+    for i in range(0, 27, 3):                 # small documents: the oracle's cost grows quickly with the document
+        docs.append(xdm.R(E_("c", *nests[i:i + 3])))
+    NFIXED = 10
     flats = [xdm.flatten(t) for t in docs]
     allobs = observations()
     keyobs = key_observations()
     ncases = 150 if quick else 3000
     cases, metas = [], []
     for k in range(ncases):
-        d = rng.randrange(len(docs)) if k % 6 else len(docs) - 1          # every 6th case on the digits document
+        d = rng.randrange(len(docs)) if k % 6 else len(docs) - 1 - (k // 6) % NFIXED          # every 6th case on the digits document / an xml:space nest
         decls = gen_decls(rng)
         obs = rng.sample(allobs, 9) + rng.sample(keyobs, 3)
         numbers = rng.sample(NUMBERS, 2)
